@@ -865,6 +865,7 @@ func TestC01(t *testing.T) {
 	}
 
 	generator(rep, env, &evals, &nontrivial)
+	runVerifySched(t, rep, env)
 
 	rep.Add(evals, nontrivial, 0, 0)
 	if err := rep.Finish(env); err != nil {
